@@ -425,6 +425,15 @@ func c07Order(rc *RuleCtx) {
 			rc.good(cons, e.site.Pos(), how)
 		} else {
 			rc.bad(cons, e.site.Pos(), how)
+			// an unordered pair has a second, independent obligation: the two objects are not the same one
+			if !walkPair(e.hkey, objKeyOf(e.akey.root)) {
+				dcons := cons + " distinct"
+				if distinctFact(e.site, e.hkey, e.akey) {
+					rc.good(dcons, e.site.Pos(), "the two objects were compared and the second lock is requested only when they differ")
+				} else {
+					rc.bad(dcons, e.site.Pos(), "nothing establishes that "+prettyKey(e.hkey)+" and "+prettyKey(e.akey)+" are different objects: when they are the same one the goroutine blocks on itself")
+				}
+			}
 		}
 	}
 }
